@@ -10,7 +10,8 @@
                        parse_file (pr_file c1 []) = parse_file (pr_file c2 [])
    What is proved is listed below, production by production (the theorems C15_roundtrip_partial_xxx); the productions that are
    not listed (see fam/idl/NOTES.md) are carried by the three-way correspondence of pv/props/c15.py. *)
-From PVIdl Require Import Comb Ast Parser Print Proofs.Total Proofs.RoundTok Proofs.RoundTy Proofs.RoundItem.
+From PVIdl Require Import Comb Ast Parser Print Proofs.Total Proofs.RoundTok Proofs.RoundPath Proofs.RoundAnn Proofs.RoundTy
+  Proofs.RoundKit Proofs.RoundItem.
 
 (* identifiers, followed by anything that does not continue a word *)
 Theorem C15_roundtrip_partial_ident : forall s k,
@@ -67,13 +68,27 @@ Theorem C15_roundtrip_partial_path : forall lf whole, (length whole < lf)%nat ->
 Proof. exact rt_path. Qed.
 Print Assumptions C15_roundtrip_partial_path.
 
-(* TYPES, recursive to any depth (base types, list / set / map, paths incl. keyword-prefixed names), every layout:
-   Type::parse inverts printing.  [simple_type]: no cpp_type clause and no annotation list inside the type (the
-   parser still tries both after every type; [tyfollow] says the text that follows is not mistaken for them).
+(* annotation lists  ( key = 'value' [,;] ... )  with every blank slot, both quote styles, optional separators; followed
+   by anything *)
+Theorem C15_roundtrip_partial_annotations : forall lf whole, (length whole < lf)%nat -> forall l k,
+  wf_anns l = true -> sfx (pr_anns l k) whole -> p_annotations lf (pr_anns l k) = POk k (erase_anns l).
+Proof. exact rt_anns. Qed.
+Print Assumptions C15_roundtrip_partial_annotations.
+
+(* the cpp_type clause of a container type *)
+Theorem C15_roundtrip_partial_cpp_type : forall lf whole, (length whole < lf)%nat -> forall c k,
+  wf_cpp c = true -> sfx (pr_cpp c k) whole ->
+  (fun i => pbind (p_blank lf i) (fun i _ => p_cpp_type lf i)) (pr_cpp c k) = POk k (erase_lit (cc_lit c)).
+Proof. exact rt_cpp. Qed.
+Print Assumptions C15_roundtrip_partial_cpp_type.
+
+(* TYPES, recursive to any depth (base types, list / set / map with cpp_type clauses, paths incl. keyword-prefixed
+   names, annotation lists on every type), every layout: Type::parse inverts printing.  The parser tries a cpp_type
+   clause, a '.' and an annotation list after every type; [tyfollow] says the text that follows is not mistaken for them.
    [whole] is any text the printed type is a suffix of, [lf] any loop fuel above its length (parse_file uses |s|+1),
    [df] any depth fuel above the nesting of the type. *)
 Theorem C15_roundtrip_partial_type : forall lf whole, (length whole < lf)%nat -> forall df t k,
-  (type_depth t < df)%nat -> wf_type t = true -> simple_type t = true -> tyfollow lf (type_ends_word t) k ->
+  (type_depth t < df)%nat -> wf_type t = true -> tyfollow lf (type_ends_word t) k ->
   sfx (pr_type t k) whole ->
   p_type lf df (pr_type t k) = POk k (erase_type t).
 Proof. exact rt_type. Qed.
@@ -82,18 +97,18 @@ Print Assumptions C15_roundtrip_partial_type.
 (* layout independence, for the part proved: two layouts of the same type give the same tree *)
 Theorem C15_layout_free_partial_type : forall lf whole1 whole2 df t1 t2 k1 k2,
   (length whole1 < lf)%nat -> (length whole2 < lf)%nat ->
-  (type_depth t1 < df)%nat -> wf_type t1 = true -> simple_type t1 = true -> tyfollow lf (type_ends_word t1) k1 -> sfx (pr_type t1 k1) whole1 ->
-  (type_depth t2 < df)%nat -> wf_type t2 = true -> simple_type t2 = true -> tyfollow lf (type_ends_word t2) k2 -> sfx (pr_type t2 k2) whole2 ->
+  (type_depth t1 < df)%nat -> wf_type t1 = true -> tyfollow lf (type_ends_word t1) k1 -> sfx (pr_type t1 k1) whole1 ->
+  (type_depth t2 < df)%nat -> wf_type t2 = true -> tyfollow lf (type_ends_word t2) k2 -> sfx (pr_type t2 k2) whole2 ->
   erase_type t1 = erase_type t2 ->
   exists a, p_type lf df (pr_type t1 k1) = POk k1 a /\ p_type lf df (pr_type t2 k2) = POk k2 a.
 Proof. exact type_layout_free. Qed.
 Print Assumptions C15_layout_free_partial_type.
 
-(* the typedef production (typedef <blank> T <blank> alias [blank] [separator]) for simple types, no annotation list;
-   [declfollow]: what follows is not a blank start, a word character, a separator or an annotation list *)
+(* the typedef production (typedef <blank> T <blank> alias [blank] [annotations] [separator]); [stop k]: what follows is
+   not a blank start, a separator, '(' or a quote; if the declaration ends with a word, what follows ends the word *)
 Theorem C15_roundtrip_partial_typedef : forall lf whole, (length whole < lf)%nat -> forall df c k,
-  wf_typedef c = true -> simple_type (ctd_type c) = true -> ctd_anns c = None -> (type_depth (ctd_type c) < df)%nat ->
-  declfollow lf k -> sfx (pr_typedef c k) whole ->
+  wf_typedef c = true -> (type_depth (ctd_type c) < df)%nat ->
+  stop k = true -> (typedef_ends_word c = true -> wstop k = true) -> sfx (pr_typedef c k) whole ->
   p_typedef lf df (pr_typedef c k) = POk k (erase_typedef c).
 Proof. exact rt_typedef. Qed.
 Print Assumptions C15_roundtrip_partial_typedef.
